@@ -192,6 +192,11 @@ def real_upgrade(path, tz):
 # ------------------------------------------------------------------ generator of populated databases
 NAMES = ["main", "task1", "_x", "Align2", "f", "script_task", "test_help", "test_gfetch", "step_3"]
 NAMESPACES = ["", "", "ns", "a.b", "redun", "wf_1.sub"]
+VALUE_TYPES = ["builtins.int", "builtins.str", "builtins.list", "redun.File", "redun.Dir", "redun.StagingFile",
+               "redun.ShardedS3Dataset", "redun.Handle", "myapp.DbConn", "redun.File", "redun.Handle"]
+FILE_TYPES = ("redun.File", "redun.Dir", "redun.StagingFile", "redun.ShardedS3Dataset")
+HANDLE_TYPES = ("redun.Handle", "myapp.DbConn")
+TASK_SUBTYPES = ["redun.PartialTask", "redun.task.SchedulerTask", "myapp.tasks.CustomTask"]
 BAD_NAMES = [("my-task", "ns"), ("1st", ""), ("ok", "bad ns"), ("", "ns"), ("ok", ".lead"), ("a.b", "")]
 
 
@@ -202,6 +207,7 @@ class DbGen:
         self.ascii = ascii_only
         self.n = 0
         self.modes = []               # labelling modes used for the job trees of a 2.3 database
+        self.task_kinds = []          # how each task was recorded (job-only / plain-value / subclass-value / value-only)
 
     def h(self):
         self.n += 1
@@ -248,17 +254,32 @@ class DbGen:
             th = self.h()
             tasks.append(th)
             T["task"].append({"hash": th, "name": n, "namespace": ns, "source": ""})
-        values = []
-        for i in range(r.randint(1, 5)):
+        # values of every kind of registered Value type that also owns rows elsewhere (file, handle, task)
+        values, vtype = [], {}
+        for i in range(r.randint(2, 6)):
             vh = self.h()
             values.append(vh)
-            T["value"].append({"value_hash": vh, "type": r.choice(["builtins.int", "builtins.str", "redun.File"]),
-                               "format": PICKLE_MIME, "value": self.blob()})
-        for th in tasks:
-            # versions from 2.1 on always have the companion value; before, sometimes
-            companion = r.random() < 0.4 if bad != "task" or th != tasks[-1] else False
-            if companion:
+            vtype[vh] = r.choice(VALUE_TYPES)
+            T["value"].append({"value_hash": vh, "type": vtype[vh], "format": PICKLE_MIME, "value": self.blob()})
+        # how each task was recorded: as the task of a job only (no value row: what the companion back-fill
+        # repairs), also as a plain Task value, as a Task SUBCLASS value (same hash, other type), or as a value
+        # only.  The first three tasks cover the first three kinds, so rows that already satisfy the back-fill's
+        # post-condition sit next to rows that do not, at every start version.
+        kinds = ["job-only", "plain-value", "subclass-value"]
+        r.shuffle(kinds)
+        for k, th in enumerate(tasks):
+            kind = kinds[k] if k < 3 else r.choice(kinds)
+            if bad == "task" and th == tasks[-1]:
+                kind = "job-only"
+            self.task_kinds.append(kind)
+            if kind == "plain-value":
                 T["value"].append({"value_hash": th, "type": "redun.Task", "format": PICKLE_MIME, "value": self.blob()})
+            elif kind == "subclass-value":
+                T["value"].append({"value_hash": th, "type": r.choice(TASK_SUBTYPES), "format": PICKLE_MIME, "value": self.blob()})
+        if r.random() < 0.5:
+            self.task_kinds.append("value-only")
+            T["value"].append({"value_hash": self.h(), "type": r.choice(["redun.Task"] + TASK_SUBTYPES), "format": PICKLE_MIME,
+                               "value": self.blob()})
         cns = []
         for i in range(r.randint(1, 4)):
             ch = self.h()
@@ -276,15 +297,17 @@ class DbGen:
                                   "arg_position": pos, "arg_key": None if pos is not None else "k"})
             if r.random() < 0.5:
                 T["argument_result"].append({"arg_hash": ah, "result_call_hash": r.choice(cns)})
-        if r.random() < 0.6:
-            T["file"].append({"value_hash": values[0], "path": "/tmp/" + (self.text() if not self.ascii else "f.txt")})
+        for vh in values:
+            if vtype[vh] in FILE_TYPES and r.random() < 0.8:
+                T["file"].append({"value_hash": vh, "path": "/tmp/" + (self.text() if not self.ascii else f"f{len(T['file'])}.txt")})
         if len(values) > 1 and r.random() < 0.6:
             T["subvalue"].append({"value_hash": values[0], "parent_value_hash": values[1]})
         hs = []
         for i in range(r.randint(0, 2)):
             hh = self.h()
             hs.append(hh)
-            T["handle"].append({"hash": hh, "fullname": "Conn", "value_hash": r.choice(values), "key": self.text(), "is_valid": r.choice([0, 1])})
+            T["handle"].append({"hash": hh, "fullname": r.choice(["Conn", "myapp.DbConn"]),
+                                "value_hash": r.choice([v for v in values if vtype[v] in HANDLE_TYPES] or values), "key": self.text(), "is_valid": r.choice([0, 1])})
         if len(hs) == 2:
             T["handle_edge"].append({"parent_id": hs[0], "child_id": hs[1]})
         if self.has("evaluation"):
@@ -398,12 +421,12 @@ def canon_after(before: dict, after: dict):
             if not (-5 <= age <= 3600):
                 raise ValueError(f"version row timestamp is not utcnow(): {r!r}")
             now = f"(VTime ({p[0]})%Z ({p[1]})%Z)"
-    vb = {r[0] for r in before["tables"].get("value", {"rows": []})["rows"]}
+    vb = {r[0]: r for r in before["tables"].get("value", {"rows": []})["rows"]}
     if "value" in after["tables"]:
         cn = [c[0] for c in after["tables"]["value"]["cols"]]
         for i, r in enumerate(after["tables"]["value"]["rows"]):
-            if r[0] in vb:
-                continue
+            if r[0] in vb and tuple(vb[r[0]]) == tuple(r):
+                continue          # untouched; a row rewritten by session.merge must be the dummy-Task pickle too
             if r[cn.index("type")] != "redun.Task" or r[cn.index("format")] != PICKLE_MIME:
                 raise ValueError(f"new value row that is not a companion Task value: {r[:3]!r}")
             obj = pickle.loads(r[cn.index("value")])
@@ -562,6 +585,8 @@ def library_accepts(path):
 
 
 _WF = {}
+WF_RESULT = [1, 2, 3, 40]
+WF_CALLS = 7
 
 
 def workflow():
@@ -576,9 +601,24 @@ def workflow():
             return x + 1
 
         @task(namespace="c36wf")
+        def scale(x: int, factor: int) -> int:
+            calls.append(("scale", x))
+            return x * factor
+
+        @task(namespace="c36wf")
+        def make_scaler(factor: int):
+            calls.append(("make_scaler", factor))
+            return scale.partial(factor=factor)      # a PartialTask recorded as a value (task row + typed value row)
+
+        @task(namespace="c36wf")
+        def apply_to(fn, x: int):
+            calls.append(("apply_to", x))
+            return fn(x)
+
+        @task(namespace="c36wf")
         def main(n: int) -> list:
             calls.append(("main", n))
-            return [inc(i) for i in range(n)]
+            return [inc(i) for i in range(n)] + [apply_to(make_scaler(10), 4)]
 
         _WF.update(calls=calls, main=main)
     return _WF["calls"], _WF["main"]
@@ -635,6 +675,14 @@ class Check(PropertyCheck):
         except astutil.TranslateError as e:
             raise TranslateError(str(e))
         self.variant = info["variant"]
+        self.backfill = info["backfill"]
+        self.chain = f"(chain_gen {self.backfill[0]} {self.backfill[1]} {self.variant})"
+        # the preservation theorem (C36_holds_fixed) is about (AnyValue, AddRow); (TypedValue, MergeRow) is the
+        # refuted variant; the mixed ones are modelled (correspondence still runs) but carry no theorem
+        self.ob("translator", f"companion-value back-fill variant is (AnyValue, AddRow), the one the preservation theorems are about "
+                              f"[found: {self.backfill[0]}, {self.backfill[1]}]", tuple(self.backfill) == ("AnyValue", "AddRow"),
+                "C36_backfill_typed_merge_refuted: a Task-subclass value row is overwritten" if tuple(self.backfill) == ("TypedValue", "MergeRow")
+                else "no preservation theorem for this variant")
         self.revisions = info["revisions"]
         # the ORM classes the library will use on the upgraded database
         from redun.backends.db import Base
@@ -666,6 +714,8 @@ class Check(PropertyCheck):
             rows = g.make(bad)
             for m in g.modes:
                 self.stat("execution_id_labelling_at_2.3", m)
+            for m in g.task_kinds:
+                self.stat("task_recorded_as", m)
             insert_rows(p, rows)
         before = dump(p)
         exc = real_upgrade(p, tz)
@@ -696,7 +746,7 @@ class Check(PropertyCheck):
                 real = dump(tpl.path(n))
                 lit = cq_db({t: {"cols": v["cols"], "rows": []} for t, v in real["tables"].items()},
                             real["indexes"], real["rev"])
-                terms.append(f"db_agrees (built env_c (chain {self.variant}) {n}%nat) {lit}")
+                terms.append(f"db_agrees (built env_c {self.chain} {n}%nat) {lit}")
                 descr.append(("schema", n))
                 self.count(("schema", n))
             # (2) populated upgrades
@@ -713,7 +763,7 @@ class Check(PropertyCheck):
                         if c["exc"] is None:
                             tabs, marks, now = canon_after(c["before"], c["after"])
                             a_lit = cq_db(tabs, c["after"]["indexes"], c["after"]["rev"], marks)
-                            term = f"db_agrees (upgrade {env.replace('NOW', now)} (chain {self.variant}) db_versions {b_lit}) {a_lit}"
+                            term = f"db_agrees (upgrade {env.replace('NOW', now)} {self.chain} db_versions {b_lit}) {a_lit}"
                             self.stat("upgrade_result", "ok")
                         else:
                             msg = str(c["exc"])
@@ -721,12 +771,15 @@ class Check(PropertyCheck):
                             if m:
                                 x = f"(XNotNull {q(m.group(1))})"
                                 self.stat("upgrade_result", "IntegrityError NOT NULL")
+                            elif re.search(r"UNIQUE constraint failed: value\.value_hash", msg):
+                                x = '(XUnique "value_hash")'
+                                self.stat("upgrade_result", "IntegrityError UNIQUE value.value_hash")
                             elif isinstance(c["exc"], ValueError) and ("Task name must" in msg or "Task namespace must" in msg):
                                 x = "XBadTask"
                                 self.stat("upgrade_result", "ValueError task name")
                             else:
                                 raise ValueError(f"unexpected exception from the real upgrade: {type(c['exc']).__name__}: {msg[:300]}")
-                            term = f"err_agrees (upgrade {env.replace('NOW', 'VNull')} (chain {self.variant}) db_versions {b_lit}) {x}"
+                            term = f"err_agrees (upgrade {env.replace('NOW', 'VNull')} {self.chain} db_versions {b_lit}) {x}"
                     except ValueError as e:
                         inexpressible.append(f"version-index {i} zone {tz}: {str(e)[:400]}")
                         continue
@@ -780,7 +833,7 @@ class Check(PropertyCheck):
         real chain, upgrade again, run the workflow again: results must come from the cache."""
         p = tpl.fresh(0, f"wf_{i}.db")
         res0, calls0 = run_workflow(p, root)
-        if res0 != [1, 2, 3] or len(calls0) != 4:
+        if res0 != WF_RESULT or len(calls0) != WF_CALLS:
             return "harness", f"workflow did not run as expected: {res0!r} {calls0!r}"
         quiet()
         b = open_backend(p)
@@ -795,13 +848,13 @@ class Check(PropertyCheck):
         bad = compare_data(before, after, os.environ.get("TZ", "UTC"), self.crossed(i))
         if after["rev"] != self.revisions[-1]:
             return "not-upgraded", f"after load() the revision is {after['rev']}"
-        if res1 != [1, 2, 3]:
+        if res1 != WF_RESULT:
             return "cache-wrong-result", f"workflow on the upgraded database returned {res1!r}"
         has_eval = "evaluation" in before["tables"]
         if has_eval and calls1:
             return "cache-miss", f"recorded results were not reused after upgrading from version index {i}: executed {calls1!r}"
         res2, calls2 = run_workflow(p, root)
-        if calls2 or res2 != [1, 2, 3]:
+        if calls2 or res2 != WF_RESULT:
             return "cache-unusable", f"second run on the upgraded database executed {calls2!r} -> {res2!r}"
         if bad:
             return bad[0]
